@@ -153,6 +153,9 @@ fn spawn_worker(
     if let Some(j) = journal {
         cmd.arg("--journal").arg(j);
     }
+    // glibc malloc: keep freed memory instead of returning it to the kernel on every large free (regex compilation
+    // allocates and frees megabytes per word; without this the workers spend most of their time in munmap/page faults)
+    cmd.env("MALLOC_TRIM_THRESHOLD_", "2147483648").env("MALLOC_MMAP_THRESHOLD_", "1073741824").env("MALLOC_TOP_PAD_", "67108864");
     let tag = if journal.is_some() { "j" } else { "" };
     let so = std::fs::File::create(base.join(format!("shard-{shard}{tag}.out"))).expect("worker stdout file");
     let se = std::fs::File::create(base.join(format!("shard-{shard}{tag}.err"))).expect("worker stderr file");
